@@ -676,9 +676,9 @@ pub fn all_tables(fams: &[Family]) -> Vec<(usize, Table)> {
     out
 }
 
-pub const TOKENS: [&str; 8] = ["a", "b", "s", "1", "", "a%2Fb", "%61", "%25"];
+pub const TOKENS: [&str; 10] = ["a", "b", "s", "1", "", "a%2Fb", "%61", "%25", "1.b", "1xb"];
 /// thorough adds a lower-case protected escape and the third protected escape of the router
-pub const TOKENS_THOROUGH: [&str; 10] = ["a", "b", "s", "1", "", "a%2Fb", "%61", "%25", "%2f", "%2B"];
+pub const TOKENS_THOROUGH: [&str; 12] = ["a", "b", "s", "1", "", "a%2Fb", "%61", "%25", "%2f", "%2B", "1.b", "1xb"];
 /// tokens for the additional 4-segment paths (needed to reach resources below two consuming scopes)
 pub const TOKENS_DEEP: [&str; 3] = ["a", "s", "1"];
 
